@@ -358,6 +358,7 @@ namespace
         {
             const Op& o = ops[k];
             g_cur.op_index = static_cast<int>(k);
+            const uint64_t steps_before = vsim::now();
             vsim::note(2, static_cast<uint64_t>(o.type), static_cast<uint64_t>(o.a * 100000 + o.b * 100 + o.c));
             if (o.type != OP_CONSTRUCT && pool == nullptr)
                 continue;
@@ -393,6 +394,11 @@ namespace
                     break;
             }
             check_no_stray_callbacks(op_names[o.type]);
+            // bounded liveness: scheduler steps this call needed to return (faults included)
+            const uint64_t used = vsim::now() - steps_before;
+            uint64_t& mx = g_cur.res.counters[std::string("max.steps_per_call.") + op_names[o.type]];
+            if (used > mx)
+                mx = used;
         }
         if (pool)
         {
